@@ -82,7 +82,12 @@ def run_cfg(ctx, p, cfg):
                 # each replace("{}", idx) result feeds expand_env_vars
                 users = [x for x in rot.calls(EXPAND) if any(y[0] == "call" and y[1] == REPLACE and y[3] == c.block for y in walk(x.arg(0)))]
                 r.require(len(users) == 1, "every-substitution-is-expanded:%s" % common.role(c), fn=rot, site=c.at, detail="pattern.replace(..) -> expand_env_vars")
-        r.floor("expand_env_vars-call-sites", len(sites), want)
+        nsites = len(sites)
+        if "fixed_window_roller" in feats:
+            # the shift function is counted with its local closures spliced in (a closure naming the archive path is one site per use)
+            rp_ = ro7["rotate"].path
+            nsites = len([c for c in sites if c.fn.path != rp_ and c.fn.d.get("closure_of") != rp_]) + len(ro7["rotate"].calls(EXPAND))
+        r.floor("expand_env_vars-call-sites", nsites, want)
 
     with ctx.rule("N2", "constants", cfg) as r:
         f = p.fn(EXPAND)
